@@ -140,14 +140,34 @@ def c27(tier, seed):
             for n in range(1, nmax + 1):
                 for bits in itertools.product([1, -1], repeat=n):
                     lits = [b * (i + 1) for i, b in enumerate(bits)]
-                    for style in (0, 1):
-                        if style == 0:
-                            text = "s SATISFIABLE\\nv " + " ".join(map(str, lits)) + " 0\\n"
-                        else:
+                    NL = chr(10)
+                    for style in range(6):
+                        if style == 0:        # one v line
+                            text = "s SATISFIABLE" + NL + "v " + " ".join(map(str, lits)) + " 0" + NL
+                        elif style == 1:      # two v lines, a comment first
                             half = max(1, n // 2)
-                            text = "c comment\\ns SATISFIABLE\\nv " + " ".join(map(str, lits[:half])) + "\\nv " + " ".join(map(str, lits[half:] + [0])) + "\\n"
+                            text = ("c comment" + NL + "s SATISFIABLE" + NL + "v " + " ".join(map(str, lits[:half])) + NL
+                                    + "v " + " ".join(map(str, lits[half:] + [0])) + NL)
+                        elif style == 2:      # one literal per v line, the terminating 0 on its own line
+                            text = "s SATISFIABLE" + NL + "".join("v %d%s" % (x, NL) for x in lits) + "v 0" + NL
+                        elif style == 3:      # two per line, comment lines in between, no trailing newline
+                            chunks = [lits[i:i + 2] for i in range(0, n, 2)]
+                            text = "s SATISFIABLE" + NL + ("c progress" + NL).join("v " + " ".join(map(str, ch)) + NL for ch in chunks) + "v 0"
+                        elif style == 4:      # leading blanks and CRLF line ends
+                            half = (n + 1) // 2
+                            text = ("s SATISFIABLE\r" + NL + "v " + " ".join(map(str, lits[:half])) + "\r" + NL
+                                    + "v " + " ".join(map(str, lits[half:] + [0])) + "\r" + NL)
+                        else:                 # three v lines of unequal length
+                            a, b2 = max(1, n // 3), max(1, 2 * n // 3)
+                            parts3 = [lits[:a], lits[a:b2], lits[b2:] + [0]]
+                            text = "s SATISFIABLE" + NL + "".join("v " + " ".join(map(str, p3)) + NL for p3 in parts3 if p3)
                         cms.call_cryptominisat = lambda f, d=False, _t=text: (_t, cms.CryptoMiniSATReturnCode.Satisfiable)
-                        res = cms.cryptominisat_solve(Path(tmp) / "none.cnf")
+                        try:
+                            res = cms.cryptominisat_solve(Path(tmp) / "none.cnf")
+                        except Exception as e:
+                            out.append(violation("C27", "raised", {"id": "cryptominisat_solve %s style %d" % (lits, style)},
+                                                 exc=type(e).__name__, detail=str(e)[:200], op="solver"))
+                            continue
                         cases.append({"kind": "solver", "bytes": list(text.encode()), "result": list(res),
                                       "meta": {"id": "cryptominisat_solve %s style %d" % (lits, style)}})
                     line = "v " + " ".join(map(str, lits)) + " 0:1"
